@@ -37,6 +37,8 @@ pub mod wakers;
 pub(crate) mod atomic_counter;
 pub(crate) mod byte_utils;
 pub mod hash_tables;
+#[cfg(ldk_verif)]
+pub mod verif;
 #[allow(dead_code)] // This is a shared utility file, not all of it is used here
 pub(crate) mod inline_vec;
 pub(crate) mod transaction_utils;
